@@ -14,6 +14,10 @@ Mul(x, y) ==
     ELSE Norm([k \in 1..(Len(x) + Len(y) - 1) |->
                  FoldSet(LAMBDA i, acc : acc + x[i] * y[k + 1 - i], 0,
                          {i \in 1..Len(x) : k + 1 - i >= 1 /\ k + 1 - i <= Len(y)})])
+\* digit-wise sum (not normalised: apply Carry(., 0) and Strip)
+ZipAdd(x, y) == [k \in 1..(IF Len(x) > Len(y) THEN Len(x) ELSE Len(y)) |->
+                  (IF k <= Len(x) THEN x[k] ELSE 0) + (IF k <= Len(y) THEN y[k] ELSE 0)]
+Add(x, y) == Norm(ZipAdd(x, y))
 RECURSIVE GeqFrom(_, _, _)
 GeqFrom(x, y, k) == IF k = 0 THEN TRUE
                     ELSE IF x[k] # y[k] THEN x[k] > y[k] ELSE GeqFrom(x, y, k - 1)
